@@ -455,6 +455,7 @@ def expand(template_path, std=True):
             prepends = []
             appends = []
             value_drops = []
+            sigrewrites = []
             i += 1
             while tl[i].strip() != "//@end":
                 t = tl[i].strip()
@@ -464,6 +465,9 @@ def expand(template_path, std=True):
                         raise Undecided("bad directive: " + t)
                     (rewrites if mm.group(1) == "rewrite" else annots).append(
                         (mm.group(2).replace("\\n", "\n"), mm.group(3).replace("\\n", "\n")))
+                elif t.startswith("//@sigrewrite "):
+                    mm = re.match(r"//@sigrewrite <<<(.*)>>> => <<<(.*)>>>\s*$", t)
+                    sigrewrites.append((mm.group(1), mm.group(2)))
                 elif t.startswith("//@panic "):
                     mm = re.match(r"//@panic (\d+) <<<(.*)>>>\s*$", t)
                     panic_args[int(mm.group(1))] = mm.group(2)
@@ -510,6 +514,12 @@ def expand(template_path, std=True):
             sig = fix_vis(sig)
             for p in strips:
                 sig = re.sub(r"(?<![A-Za-z0-9_:])" + re.escape(p), "", sig)
+            for (a, b) in sigrewrites:
+                hits = list(anchor_regex(a).finditer(sig))
+                if len(hits) != 1:
+                    raise Undecided("lost anchor: signature text <<<%s>>> matched %d times in fn %s" % (a, len(hits), name))
+                sig = sig[:hits[0].start()] + b + sig[hits[0].end():]
+                g.log.abstractions.append("fn %s signature: <<<%s>>> -> <<<%s>>> (opaque stand-in type)" % (name, a, b))
             emit_name = kv.get("rename", name)
             if "rename" in kv:
                 sig = re.sub(r"\bfn\s+%s\b" % re.escape(name), "fn " + emit_name, sig, count=1)
